@@ -272,6 +272,20 @@ Theorem C07_identity_rejects :
 Proof. exact identity_rejects. Qed.
 Print Assumptions C07_identity_rejects.
 
+(* parse_initial_states tests the SYMMETRIC difference of the label sets: a foreign label in the
+   initial states is rejected just like a missing one (IdentitySampler and RandomSampler) *)
+Theorem C07_identity_rejects_foreign_or_missing :
+  forall g num_reads (e : sample -> Qc) vars ls conv init extra v,
+    (In v ls /\ ~ In v vars) \/ (In v vars /\ ~ In v ls) ->
+    identity_sample g num_reads e vars ls conv init extra = None.
+Proof. exact identity_rejects_foreign_or_missing. Qed.
+Print Assumptions C07_identity_rejects_foreign_or_missing.
+
+Theorem C07_same_label_set_symmetric :
+  forall vars ls, same_label_set vars ls = true <-> (forall v, In v vars <-> In v ls).
+Proof. exact same_label_set_symmetric. Qed.
+Print Assumptions C07_same_label_set_symmetric.
+
 Theorem C07_identity_none_tile_exact :
   forall g num_reads (e : sample -> Qc) vars ls conv init extra r d,
     g <> GRandom ->
